@@ -12,11 +12,21 @@ import (
 
 var stringToNumberParseInteger = regexp.MustCompile(`^(?:0[xX])`)
 
+// stringNumericLiteral is the StringNumericLiteral grammar of ECMA-262 9.3.1
+// (after white space has been trimmed): a signed decimal literal, a signed
+// Infinity, or an unsigned hexadecimal integer literal.
+var stringNumericLiteral = regexp.MustCompile(`^(?:[+-]?(?:Infinity|[0-9]+\.?[0-9]*(?:[eE][+-]?[0-9]+)?|\.[0-9]+(?:[eE][+-]?[0-9]+)?)|0[xX][0-9a-fA-F]+)$`)
+
 func parseNumber(value string) float64 {
 	value = strings.Trim(value, builtinStringTrimWhitespace)
 
 	if value == "" {
 		return 0
+	}
+
+	// strconv accepts more than ECMAScript does ("inf", "nan", "1_0", "0x1p4", ...).
+	if !stringNumericLiteral.MatchString(value) {
+		return math.NaN()
 	}
 
 	var parseFloat bool
